@@ -34,9 +34,9 @@ def cfg(name, tiers, c, shards=14, rej_sample=0, chains=("eth",), **kw):
 
 
 DEV = consts(1, 1, 0, 1, 1, 2, [1], [0], [1])
-POOL_Q = consts(2, 2, 0, 1, 2, 3, [1, 2], [0, 2], [1, 3])
-CALL_Q = consts(0, 0, 2, 1, 2, 4, [1], [0], [1])
-MIX_Q = consts(1, 1, 1, 1, 2, 4, [1], [0], [1])
+POOL_Q = consts(2, 1, 0, 1, 1, 2, [1, 2], [0, 2], [1, 3])
+CALL_Q = consts(0, 0, 2, 0, 2, 4, [1], [0], [1])
+MIX_Q = consts(1, 1, 1, 0, 2, 4, [1], [0], [1])
 POOL_T = consts(2, 2, 0, 2, 2, 3, [1, 2], [0, 2], [1, 3])
 CALL_T = consts(0, 0, 2, 1, 3, 4, [1], [0], [1], kc=2)
 MIX_T = consts(2, 1, 1, 1, 2, 4, [1], [0], [1])
@@ -76,3 +76,14 @@ def outgoing(pid):
 
 for p in ("C04", "C05", "C06"):
     specs.REGISTRY[p] = outgoing(p)
+
+_TECH = "TLA+ spec Outgoing.tla (fxcore outgoing side + explicit external-chain environment): TLC exhaustive model check + replay of every TLC-generated transition on the real keeper + TLC evaluation of the %s formulas on recorded real behaviours"
+_NOTE = "bounded: 2 users, <=2 transfers, <=2 batches, <=2 bridge calls, 1 deposit, token FX, one honest oracle quorum; external chain simulated from FxBridgeLogic.sol's three rules; trusted: TLC, abstraction function (raw store reads + bank balances), the environment ledger kept by the harness"
+specs.MANIFEST.update({
+    "C04": dict(category="model_checking", technique=_TECH % "C04", ref="5 (C04-C06)", note=_NOTE,
+                text="Conservation: holdings + pooled/batched transfers + open bridge calls (not yet observed as executed) + parked deposits = initial + observed deposits - withdrawals observed as executed, in every state of every interleaving of send/cancel/increase-fee/request-batch/bridge-call, block progress on both chains, external executions and in-order observation with parked claims; an operation changes only the balance of the account it names; a send within the holder's balance is never refused."),
+    "C05": dict(category="model_checking", technique=_TECH % "C05", ref="5 (C04-C06)", note=_NOTE,
+                text="Every transfer/batch/call id is fresh and in exactly one place (pool, exactly one open batch, or gone for good); records are immutable from creation to settlement except the fee via increase-fee (payer pays exactly the added fee); only the creator cancels and gets exactly amount+fee; a transfer leaves only by cancel or by the observed execution of its batch; a cancelled batch returns its transfers to the pool unchanged; a bridge call is settled by its executed result (refund exactly its amount on failure) or a timeout refund."),
+    "C06": dict(category="model_checking", technique=_TECH % "C06", ref="5 (C04-C06)", note=_NOTE,
+                text="A batch or outgoing bridge call is released for timeout only in an observation step whose event proves the external height beyond (batch) / at (call) its timeout; nothing is batched or sent before an external height has been observed; cross-chain ledger invariant NeverBoth: value on fxcore + value locked outside - records already run externally + inbound deposits = initial + locked - released, i.e. nothing the external chain has released is also refunded on fxcore."),
+})
